@@ -164,7 +164,34 @@ def isolation_cases():
             pass
         except Exception as e:  # noqa
             out.append((bad, f"outside VEVENT: {type(e).__name__} instead of ValueError"))
+        # "outside lenient components": also INSIDE a component that is not lenient itself although an enclosing one is (VALARM, X- and
+        # unknown components in a VEVENT), and in non-lenient components at any depth (VTODO > VALARM, VTIMEZONE > STANDARD)
+        for nest in (["VEVENT", "VALARM"], ["VEVENT", "X-BOX"], ["VEVENT", "VALARM", "X-DEEP"], ["VTODO"], ["VTODO", "VALARM"], ["VJOURNAL"],
+                     ["VFREEBUSY"], ["X-BOX", "VEVENT", "VALARM"]):
+            text = "BEGIN:VCALENDAR\r\n" + "".join(f"BEGIN:{n}\r\n" for n in nest) + bad + "\r\n" + "".join(f"END:{n}\r\n" for n in reversed(nest)) + "END:VCALENDAR\r\n"
+            try:
+                c3 = icalendar.Calendar.from_ical(text)
+            except ValueError:
+                continue
+            except Exception as e:  # noqa
+                out.append((bad, f"inside {' > '.join(nest)}: {type(e).__name__} instead of ValueError"))
+                continue
+            inner = c3
+            for n in nest:
+                inner = inner.subcomponents[0]
+            if name not in inner and not name.startswith("X-") and ":" in bad and name not in c2_names(bad):
+                out.append((bad, f"inside the non-lenient {' > '.join(nest)} the bad line is dropped instead of failing the parse with ValueError"))
     return out
+
+
+def c2_names(bad):
+    """names for which the 'bad' line is in fact accepted by a strict component (then nothing is dropped)"""
+    import icalendar
+    try:
+        c = icalendar.Calendar.from_ical("BEGIN:VCALENDAR\r\n%s\r\nEND:VCALENDAR\r\n" % bad)
+        return set(c.keys())
+    except Exception:  # noqa
+        return set()
 
 
 def classify(msg, text):
